@@ -118,6 +118,8 @@ def rng(ctx, mir, o, depth=0):
         if k == "bin":
             return rng_bin(ctx, mir, r, depth) or tr
         if k == "discr":
+            if r.get("ty") in ctx.enum_max:
+                return ctx.enum_max[r["ty"]]
             return tr
         return tr
     if d.get("t") == "call":
@@ -223,6 +225,157 @@ def dominated_ge(mir, block, A, B, preds):
     return False
 
 
+
+def walk_back(mir, block, preds, limit=10):
+    """yield (pred_block_index, taken_true) for branch edges on the unique-predecessor chain above `block`"""
+    cur = block
+    for _ in range(limit):
+        ps = [p for p in preds[cur] if not mir["blocks"][p].get("cleanup")]
+        if len(ps) != 1:
+            return
+        p = ps[0]
+        t = mir["blocks"][p]["term"]
+        if t.get("t") == "switch":
+            tg = dict((v, b) for v, b in t["targets"])
+            if tg.get(0) == cur and t["otherwise"] != cur:
+                yield p, False
+            elif t["otherwise"] == cur and tg.get(0) != cur:
+                yield p, True
+            else:
+                yield p, None
+        else:
+            yield p, None
+        cur = p
+
+
+def single_def(mir, l):
+    """local assigned at most once and never mutably borrowed: its value is stable wherever it is live"""
+    if l is None:
+        return False
+    n = 0
+    for blk in mir["blocks"]:
+        for st in blk["stmts"]:
+            if st["lhs"]["l"] == l:
+                n += 1
+            r = st["r"]
+            if r.get("rv") in ("ref", "rawptr") and r.get("mut", True) and r["p"]["l"] == l:
+                return False
+        t = blk["term"]
+        if t.get("t") == "call" and t["dest"]["l"] == l:
+            n += 1
+    return n <= 1
+
+
+def dom_edges(mir, block):
+    """(D, taken_true) for every dominating switch one of whose successors dominates `block`"""
+    dom, succ, preds, _ = dominators(mir)
+    out = []
+    for d in sorted(dom.get(block, ()), reverse=True):
+        t = mir["blocks"][d]["term"]
+        if t.get("t") != "switch" or d == block:
+            continue
+        tg = dict((v, b) for v, b in t["targets"])
+        f_t, t_t = tg.get(0), t["otherwise"]
+        if f_t is None or f_t == t_t:
+            continue
+        fd = f_t in dom[block]
+        td = t_t in dom[block]
+        if fd != td:
+            out.append((d, td))
+    return out
+
+
+def switch_cmp(mir, p):
+    """the comparison rvalue a switch block branches on, or None"""
+    pb = mir["blocks"][p]
+    t = pb["term"]
+    if t.get("t") != "switch":
+        return None
+    dl = operand_local(t["discr"])
+    for s in pb["stmts"]:
+        if s["lhs"]["l"] == dl and not s["lhs"].get("pr") and s["r"].get("rv") == "bin":
+            return s["r"]
+    return None
+
+
+def modifies(mir, p, bases):
+    pb = mir["blocks"][p]
+    for s in pb["stmts"]:
+        if s["lhs"]["l"] in bases:
+            return True
+        r = s["r"]
+        if r.get("rv") == "ref" and r.get("mut") and r["p"]["l"] in bases:
+            return True
+    t = pb["term"]
+    return t.get("t") == "call" and t["dest"]["l"] in bases
+
+
+def base_of(pl):
+    m = re.match(r"_(\d+)", pl or "")
+    return int(m.group(1)) if m else None
+
+
+def refine_by_const(ctx, mir, block, A, preds):
+    """range of place A implied by dominating comparisons with constants on the unique-predecessor chain"""
+    lo, hi = None, None
+    bases = {base_of(A)}
+    edges = dom_edges(mir, block) if ("." not in A and single_def(mir, base_of(A))) else list(walk_back(mir, block, preds))
+    stable = "." not in A and single_def(mir, base_of(A))
+    for p, taken in edges:
+        c = switch_cmp(mir, p)
+        if c is not None and taken is not None and c["op"] in ("Lt", "Le", "Gt", "Ge"):
+            X, Y = place_str(mir, c["a"]), place_str(mir, c["b"])
+            ra, rb = rng(ctx, mir, c["a"]), rng(ctx, mir, c["b"])
+            op = c["op"]
+            if not taken:
+                op = {"Lt": "Ge", "Le": "Gt", "Gt": "Le", "Ge": "Lt"}[op]
+            if X == A and rb:
+                if op == "Lt":
+                    hi = rb[1] - 1 if hi is None else min(hi, rb[1] - 1)
+                elif op == "Le":
+                    hi = rb[1] if hi is None else min(hi, rb[1])
+                elif op == "Gt":
+                    lo = rb[0] + 1 if lo is None else max(lo, rb[0] + 1)
+                elif op == "Ge":
+                    lo = rb[0] if lo is None else max(lo, rb[0])
+            elif Y == A and ra:
+                if op == "Gt":
+                    hi = ra[1] - 1 if hi is None else min(hi, ra[1] - 1)
+                elif op == "Ge":
+                    hi = ra[1] if hi is None else min(hi, ra[1])
+                elif op == "Lt":
+                    lo = ra[0] + 1 if lo is None else max(lo, ra[0] + 1)
+                elif op == "Le":
+                    lo = ra[0] if lo is None else max(lo, ra[0])
+        if not stable and modifies(mir, p, bases):
+            break
+    return lo, hi
+
+
+def rem_dominated(ctx, mir, block, A, need, preds):
+    """A % k == r (r >= need) holds on the chain above `block` => A >= need"""
+    bases = {base_of(A)}
+    stable = "." not in A and single_def(mir, base_of(A))
+    edges = dom_edges(mir, block) if stable else list(walk_back(mir, block, preds))
+    for p, taken in edges:
+        c = switch_cmp(mir, p)
+        if c is not None and taken is not None and c["op"] in ("Eq", "Ne"):
+            # one side is a constant r, the other traces to Rem(A, k)
+            for x, y in ((c["a"], c["b"]), (c["b"], c["a"])):
+                r = rng(ctx, mir, y)
+                xl = operand_local(x)
+                if r and r[0] == r[1] and xl is not None:
+                    ds = defs_of(mir, xl)
+                    if len(ds) == 1 and "r" in ds[0][1] and ds[0][1]["r"].get("rv") == "bin" and ds[0][1]["r"]["op"] == "Rem":
+                        if place_str(mir, ds[0][1]["r"]["a"]) == A:
+                            eq_holds = (c["op"] == "Eq") == taken
+                            if eq_holds and r[0] >= need:
+                                return True
+        if not stable and modifies(mir, p, bases):
+            break
+    return False
+
+
 def array_len(ty):
     m = re.match(r"^&?(?:mut )?\[.*; (\d+)\]$", ty or "")
     return int(m.group(1)) if m else None
@@ -243,11 +396,27 @@ def discharge_R(ctx, site):
                    "Mul": (min(a[0] * b[0], a[0] * b[1], a[1] * b[0], a[1] * b[1]), max(a[0] * b[0], a[0] * b[1], a[1] * b[0], a[1] * b[1]))}.get(op)
             if res and res[0] >= tr[0] and res[1] <= tr[1]:
                 return "interval %s %s %s = %s within %s" % (a, op, b, res, aty)
+        _, _, preds, _ = dominators(mir)
         if op == "Sub":
             A, B = place_str(mir, t["a"]), place_str(mir, t["b"])
-            _, _, preds, _ = dominators(mir)
             if A and B and dominated_ge(mir, site["block"], A, B, preds):
                 return "dominated by a comparison establishing %s >= %s" % (A, B)
+            if A and b and b[0] == b[1] and rem_dominated(ctx, mir, site["block"], A, b[1], preds):
+                return "dominated by %s %% k == r with r >= %d" % (A, b[1])
+        # refine operand ranges by dominating comparisons with constants
+        if tr and a and b:
+            ra, rb = list(a), list(b)
+            for which, o_ in ((ra, t["a"]), (rb, t["b"])):
+                P = place_str(mir, o_)
+                if P:
+                    lo, hi = refine_by_const(ctx, mir, site["block"], P, preds)
+                    if lo is not None:
+                        which[0] = max(which[0], lo)
+                    if hi is not None:
+                        which[1] = min(which[1], hi)
+            res = {"Add": (ra[0] + rb[0], ra[1] + rb[1]), "Sub": (ra[0] - rb[1], ra[1] - rb[0])}.get(op)
+            if res and res[0] >= tr[0] and res[1] <= tr[1]:
+                return "interval refined by dominating comparisons: %s %s %s within %s" % (tuple(ra), op, tuple(rb), aty)
         return None
     if k in ("rem_zero", "div_zero"):
         # the divisor is operand of the Rem/Div that follows; the assert's cond is `Eq(divisor, 0)`: find a constant divisor
